@@ -338,6 +338,7 @@ def plan(tier, seed, excl):
     q = tier == 'quick'
     t = [('table', {'shard': i, 'of': 16, 'full': not q}) for i in range(16)]
     t += [('random', {'shard': i, 'n': 800 if q else 15000}) for i in range(6)]
+    t += [('atheris', {'shard': i, 'runs': 5000 if q else 100000, 'empty_corpus': i == 0}) for i in range(2 if q else 4)]
     return t
 
 
@@ -365,6 +366,23 @@ def run(part, args, env):
                 acc.sample(dict(case, outcome=r))
         acc.bulk(n, nt)
         acc.exhaustive['payload x slot x enclosing shape table'] = bool(args['full'])
+    elif part == 'atheris':
+        from .. import fuzz
+        work = os.path.join(VERIF_DIR, '.work', 'fuzz-c12-%d-%d' % (os.getpid(), args['shard']))
+        seeds = [c['filter'] for i, c in enumerate(all_cases()) if i % 211 == 0]
+        toks = ['zzcanary1', '("', '")', ' == ', ' and ', ' or ', 'not ', '->', '__import__', 'exec', 'x', '@', '`', '"', '\\', '5kW',
+                'Foo(', '[', ']', '{', '}', ':', '2020-01-01', 'T00:00:00Z', ' UTC', '(', ')', 'open', 'lambda']
+        res = fuzz.run_campaign('C12', shard_seed(env['seed'], PROPERTY, 'fz', args['shard']) % 100000 + 1, args['runs'],
+                                [] if args['empty_corpus'] else seeds, toks, work)
+        if res['violation']:
+            v = res['violation']
+            acc.violation(Violation(v['stage'], v['case'], v['detail'], tuple(v.get('tags', ()))))
+        if res.get('failed'):
+            raise RuntimeError(res['note'])
+        acc.bulk(res['evaluations'], res['nontrivial'], labels=('atheris',))
+        acc.notes.append('atheris shard %d (%s corpus): %s, outcomes %r' % (
+            args['shard'], 'empty' if args['empty_corpus'] else 'seeded', res['note'], res['outcomes']))
+        acc.sample({'atheris': 'libFuzzer campaign', 'runs': res['evaluations'], 'outcomes': res['outcomes']})
     else:
         from hypothesis import strategies as st
         frag = st.sampled_from(payloads() + ['"', '\\', '`', '(', ')', '==', ' and ', ' or ', 'not ', '->', 'x', 'y', '@', '5', '[', ']',
